@@ -40,6 +40,7 @@ inductive Ev where
   | done (j : Job)          -- the coroutine's sleep ended (it then returns or raises)
   | cancelled (j : Job)     -- CancelledError delivered inside the coroutine
   | succ (j : Job) | err (j : Job) | canc (j : Job)     -- result events with `put = j`
+  | timeout                 -- stop_timeout expired while stop_async was still running (not observable by itself)
   deriving DecidableEq, Repr, Inhabited
 
 structure Run where
@@ -52,6 +53,7 @@ structure Cfg where
   mode : Mode
   guard : Nat               -- 0 = no guard time
   stopData : Option Item
+  stopTimeout : Nat := 1000000000    -- µs after `stop()`
   deriving Repr, Inhabited
 
 structure State where
@@ -60,6 +62,8 @@ structure State where
   queue : List Job := []          -- accepted, not started (cancel mode: incl. the item the controller holds)
   stopped : Bool := false         -- the sentinel has been queued
   sdPending : Option Job := none  -- start mode: stop_data waits in stop_async for all runs
+  deadline : Option Nat := none   -- stop time + stop_timeout, until it has fired
+  stopAt : Option Nat := none     -- the instant of `stop()`
   output : Nat := 0               -- the block's output, counted up/down like the wrapper does
   nacc : Nat := 0                 -- number of accepted puts (incl. stop_data)
   log : List (Nat × Ev) := []     -- newest first
@@ -157,17 +161,50 @@ def due (bound : Option (Nat × Bool)) (m : Nat) : Bool :=
   | none => true
   | some (t, incl) => m < t || (incl && m == t)
 
+/-- the log entries of a cancellation hitting every running coroutine (in start order) -/
+def expireEvents (now : Nat) : List Run → List (Nat × Ev) → List (Nat × Ev)
+  | [], l => l
+  | r :: rs, l =>
+    expireEvents now rs (if r.coro then (now, .canc r.job) :: (now, .cancelled r.job) :: l else l)
+
+/-- after a cancellation: running coroutines have ended, their shielded guard sleep begins -/
+def toGuard (c : Cfg) (now : Nat) (r : Run) : Run :=
+  if r.coro then { r with coro := false, till := now + c.guard } else r
+
+/-- stop_timeout expires while `stop_async` is still running: `_run_tasks`' `wait_for` cancels the
+    stop_async task; the cancellation travels down the chain of awaited tasks (control task, `gather`,
+    output tasks) to every coroutine that is running in this instant.  `_output_coro` treats it like a
+    cancellation by the control task: on_cancel, guard sleep (a guard sleep is shielded) -- and swallows
+    it, so everything else (queued items, stop_data) goes on as if nothing had happened. -/
+def expire (c : Cfg) (s : State) (d : Nat) : State :=
+  { s with
+    now := max s.now d
+    deadline := none
+    runs := s.runs.map (toGuard c (max s.now d))
+    log := expireEvents (max s.now d) s.runs ((max s.now d, .timeout) :: s.log) }
+
+/-- the deadline fires before the block's own timers of the same instant (its callback runs in the
+    timer batch, before any woken task resumes; a coroutine whose timer fired in that batch is
+    cancelled all the same); it is disarmed when stop_async has finished, i.e. when no run is left -/
+def deadlineFirst (s : State) (m : Nat) : Option Nat :=
+  match s.deadline with
+  | some d => if d ≤ m then some d else none
+  | none => none
+
 def advance (c : Cfg) (bound : Option (Nat × Bool)) : Nat → State → State
   | 0, s => s
   | fuel + 1, s =>
     match minTill s.runs with
-    | some m => if due bound m then advance c bound fuel (fire c s m) else s
+    | some m =>
+      match deadlineFirst s m with
+      | some d => if due bound d then advance c bound fuel (expire c s d) else s
+      | none => if due bound m then advance c bound fuel (fire c s m) else s
     | none => s
 
 /-- every internal step lowers this -/
 def measure (s : State) : Nat :=
   2 * s.queue.length + (s.runs.map (fun r => if r.coro then 2 else 1)).sum
-    + (if s.sdPending.isSome then 2 else 0)
+    + (if s.sdPending.isSome then 2 else 0) + (if s.deadline.isSome then 1 else 0)
 
 /-- let the loop run up to the bound -/
 def advanceTo (c : Cfg) (bound : Option (Nat × Bool)) (s : State) : State :=
@@ -193,7 +230,7 @@ def doStop (c : Cfg) (s : State) : State :=
         let j : Job := ⟨s.nacc, d⟩
         emit { s with sdPending := some j, nacc := s.nacc + 1 } (.put j)
       else accept s d
-  { s with stopped := true }
+  { s with stopped := true, deadline := some (s.now + c.stopTimeout), stopAt := some s.now }
 
 inductive Op where
   /-- a put at instant `t`; `pre`: before the block's own timers of that instant;
